@@ -20,6 +20,16 @@ the loader rewrites:
   N18 t = 0; for x in it: t += E  ->  t = sum(E for x in it)   (with  t += a / t -= b  arms folded into one conditional term)
   N13 x = list(E); x.sort(**kw)  ->  x = sorted(E, **kw)
   N6  while True: if X: break; rest    ->  while not X: rest         (loops without else whose first statement is the exit test)
+  N31 for T in iter(F, None): BODY     ->  while True: t = F(); if t is None: break; T = t; BODY     (two-argument iter, None sentinel)
+  N32 a = b = E                        ->  b = E; a = b              (chained assignment to names / plain attribute paths)
+  N40 dict((K, V) for ...)             ->  {K: V for ...}
+  N39 it = iter(X); while True: p = next(it, S); if p is S: break; BODY   ->   for p in X: BODY     (also the StopIteration form)
+  N38 if c: A; return  REST  (function top level, bare return, A not empty)  ->  if c: A else: REST
+  N37 list(<genexp>) / set(<genexp>)   ->  the list / set comprehension
+  N36 i = A; while i < B: BODY; i += 1  ->  for i in range(A, B): BODY     (B not re-bound, no continue, i unused elsewhere)
+  N35 not (a or b) / not (a and b) / not (x is y) ...  ->  De Morgan, exact negations pushed inwards
+  N34 for T in (v for v in IT if C): B  ->  for T in IT: if C: B      (a filtering generator / list comprehension as the loop source)
+  N33 list(map(F, IT))                 ->  [F(m) for m in IT]        (F a name / plain path; generator form under tuple, set, sorted, sum, any, all)
 Line numbers of the surviving statements are preserved, so reports still point at the original source lines.
 """
 from __future__ import annotations
@@ -77,19 +87,21 @@ def _clone(e):
     return copy.deepcopy(e)
 
 
-def _negate(t: ast.expr) -> ast.expr:
+def _negate(t: ast.expr, eq_ok: bool = True) -> ast.expr:
     """logical negation pushed inwards where that is exact: `not not x`, is / in / == by definition, orderings when one side is a
     length or an integer literal (integers are totally ordered), and / or by De Morgan; otherwise `not (t)`"""
     if isinstance(t, ast.UnaryOp) and isinstance(t.op, ast.Not):
         return t.operand
     if isinstance(t, ast.Compare) and len(t.ops) == 1:
         op = type(t.ops[0])
-        if op in _EXACT_NEG:
+        if op in _EXACT_NEG and (eq_ok or op not in (ast.Eq, ast.NotEq)):
+            # (== / != are each other's negation for the builtin types; for a class that defines both they are two methods, so a
+            # rewrite that is applied everywhere - N35 - leaves them alone)
             return ast.copy_location(ast.Compare(left=t.left, ops=[_EXACT_NEG[op]()], comparators=t.comparators), t)
         if op in _ORDER_NEG and (_intish(t.left) or _intish(t.comparators[0])):
             return ast.copy_location(ast.Compare(left=t.left, ops=[_ORDER_NEG[op]()], comparators=t.comparators), t)
     if isinstance(t, ast.BoolOp):
-        return ast.copy_location(ast.BoolOp(op=ast.Or() if isinstance(t.op, ast.And) else ast.And(), values=[_negate(v) for v in t.values]), t)
+        return ast.copy_location(ast.BoolOp(op=ast.Or() if isinstance(t.op, ast.And) else ast.And(), values=[_negate(v, eq_ok) for v in t.values]), t)
     return ast.copy_location(ast.UnaryOp(op=ast.Not(), operand=t), t)
 
 
@@ -153,6 +165,32 @@ class _N(ast.NodeTransformer):
 
     def visit_Call(self, node: ast.Call):
         self.generic_visit(node)
+        # N37: list(<generator expression>)  ->  the list comprehension;  set(<generator expression>)  ->  the set comprehension
+        if isinstance(node.func, ast.Name) and node.func.id in ("list", "set") and len(node.args) == 1 and not node.keywords \
+                and isinstance(node.args[0], ast.GeneratorExp):
+            ge = node.args[0]
+            mk = ast.ListComp if node.func.id == "list" else ast.SetComp
+            return ast.copy_location(mk(elt=ge.elt, generators=ge.generators), node)
+        # N40: dict((K, V) for ...) / dict([(K, V) for ...])  ->  {K: V for ...}
+        if isinstance(node.func, ast.Name) and node.func.id == "dict" and len(node.args) == 1 and not node.keywords \
+                and isinstance(node.args[0], (ast.GeneratorExp, ast.ListComp)) and isinstance(node.args[0].elt, (ast.Tuple, ast.List)) \
+                and len(node.args[0].elt.elts) == 2 and not any(isinstance(x, ast.Starred) for x in node.args[0].elt.elts):
+            ge = node.args[0]
+            return ast.copy_location(ast.DictComp(key=ge.elt.elts[0], value=ge.elt.elts[1], generators=ge.generators), node)
+        # N33: list(map(F, IT))  ->  [F(_m) for _m in IT]       (F a name or a plain path, one iterable; likewise tuple / set /
+        # sorted / sum / any / all over map(), as a generator expression)
+        if isinstance(node.func, ast.Name) and node.func.id in ("list", "tuple", "set", "frozenset", "sorted", "sum", "any", "all") \
+                and node.args and isinstance(node.args[0], ast.Call) and isinstance(node.args[0].func, ast.Name) \
+                and node.args[0].func.id == "map" and len(node.args[0].args) == 2 and not node.args[0].keywords \
+                and not any(isinstance(a, ast.Starred) for a in node.args[0].args) and _pure_path(node.args[0].args[0]):
+            fn, it = node.args[0].args
+            var = f"_m{node.lineno}"
+            elt = ast.Call(func=fn, args=[ast.Name(id=var, ctx=ast.Load())], keywords=[])
+            gens = [ast.comprehension(target=ast.Name(id=var, ctx=ast.Store()), iter=it, ifs=[], is_async=0)]
+            if node.func.id == "list" and len(node.args) == 1 and not node.keywords:
+                return ast.fix_missing_locations(ast.copy_location(ast.ListComp(elt=elt, generators=gens), node))
+            node.args[0] = ast.fix_missing_locations(ast.copy_location(ast.GeneratorExp(elt=elt, generators=gens), node.args[0]))
+            return node
         # N28: getattr(x, "name")  ->  x.name        (a literal identifier, no default)
         if isinstance(node.func, ast.Name) and node.func.id == "getattr" and len(node.args) == 2 and not node.keywords \
                 and isinstance(node.args[1], ast.Constant) and isinstance(node.args[1].value, str) and node.args[1].value.isidentifier():
@@ -174,6 +212,16 @@ class _N(ast.NodeTransformer):
                 c1 = ast.Compare(left=node.left, ops=[ast.IsNot() if neg else ast.Is()], comparators=[ast.Constant(value=None)])
                 c2 = ast.Compare(left=_clone(node.left), ops=[ast.NotEq() if neg else ast.Eq()], comparators=[b])
                 return ast.copy_location(ast.BoolOp(op=ast.And() if neg else ast.Or(), values=[ast.copy_location(c1, node), ast.copy_location(c2, node)]), node)
+        return node
+
+    def visit_UnaryOp(self, node: ast.UnaryOp):
+        self.generic_visit(node)
+        # N35: not (a or b) -> not a and not b;  not (a and b) -> not a or not b;  not (x is y) -> x is not y; ... (De Morgan and the
+        # negations that are exact by definition, see _negate; an ordering is flipped only against a length / an integer literal)
+        if isinstance(node.op, ast.Not) and isinstance(node.operand, (ast.BoolOp, ast.Compare, ast.UnaryOp)):
+            neg = _negate(node.operand, eq_ok=False)
+            if not (isinstance(neg, ast.UnaryOp) and isinstance(neg.op, ast.Not) and neg.operand is node.operand):
+                return ast.copy_location(neg, node)
         return node
 
     def visit_IfExp(self, node: ast.IfExp):
@@ -452,15 +500,18 @@ class _N(ast.NodeTransformer):
             while i < len(res):
                 st = res[i]
                 nxt = res[i + 1] if i + 1 < len(res) else None
+                # (N19 also for  t = E; return f(t, ...):  t the first thing the return statement evaluates)
+                host = "test" if isinstance(nxt, ast.If) else ("value" if isinstance(nxt, ast.Return) and nxt.value is not None else None)
                 if isinstance(st, ast.Assign) and len(st.targets) == 1 and isinstance(st.targets[0], ast.Name) \
-                        and isinstance(nxt, ast.If) and self._uses.get(st.targets[0].id, 0) == 1 \
+                        and host is not None and self._uses.get(st.targets[0].id, 0) == 1 \
                         and st.targets[0].id not in self._declared \
-                        and not isinstance(st.value, (ast.Yield, ast.YieldFrom, ast.Await, ast.NamedExpr)):
-                    slot = self._first_evaluated(nxt.test, st.targets[0].id)
+                        and not isinstance(st.value, (ast.Yield, ast.YieldFrom, ast.Await, ast.NamedExpr)) \
+                        and not (host == "value" and isinstance(getattr(nxt, host), ast.Name)):
+                    slot = self._first_evaluated(getattr(nxt, host), st.targets[0].id, calls=(host == "value"))
                     if slot is not None:
                         holder, fld, idx = slot
                         if holder is None:
-                            nxt.test = st.value
+                            setattr(nxt, host, st.value)
                         elif idx is None:
                             setattr(holder, fld, st.value)
                         else:
@@ -476,13 +527,28 @@ class _N(ast.NodeTransformer):
         return res
 
     @staticmethod
-    def _first_evaluated(test, name):
-        """where in ``test`` the name sits, if it is the first thing the test evaluates: (holder, field, index) or None"""
+    def _first_evaluated(test, name, calls=False):
+        """where in ``test`` the name sits, if it is the first thing the test evaluates: (holder, field, index) or None.
+        With ``calls``: also the first argument of a call whose callee is a plain path (looked up, not called, before the argument)
+        and the receiver of a method call / attribute / subscript."""
         holder, fld, idx = None, None, None
         e = test
         while True:
             if isinstance(e, ast.Name):
                 return (holder, fld, idx) if e.id == name and isinstance(e.ctx, ast.Load) else None
+            if calls and isinstance(e, ast.Call) and e.args and not isinstance(e.args[0], ast.Starred) and _pure_path(e.func) \
+                    and not any(isinstance(n, ast.Name) and n.id == name for n in ast.walk(e.func)):
+                holder, fld, idx, e = e, "args", 0, e.args[0]
+                continue
+            if calls and isinstance(e, ast.Call) and isinstance(e.func, ast.Attribute):
+                holder, fld, idx, e = e.func, "value", None, e.func.value
+                continue
+            if calls and isinstance(e, (ast.Attribute, ast.Subscript)):
+                holder, fld, idx, e = e, "value", None, e.value
+                continue
+            if calls and isinstance(e, ast.BinOp):
+                holder, fld, idx, e = e, "left", None, e.left
+                continue
             if isinstance(e, ast.UnaryOp) and isinstance(e.op, ast.Not):
                 holder, fld, idx, e = e, "operand", None, e.operand
             elif isinstance(e, ast.BoolOp):
@@ -749,13 +815,20 @@ class _AliasFields(ast.NodeTransformer):
             elif isinstance(n, ast.Attribute) and isinstance(n.ctx, (ast.Store, ast.Del)):
                 own_attr_stores.add(n.attr)
 
-        def stable(e) -> bool:
+        def stable(e, after=None) -> bool:
             path = []
             while isinstance(e, ast.Attribute):
                 path.append(e.attr)
                 e = e.value
-            if not (bool(path) and isinstance(e, ast.Name) and stores.get(e.id, 0) == 0 and e.id not in declared
+            if not (bool(path) and isinstance(e, ast.Name) and e.id not in declared
                     and not any(x in REBOUND_ATTRS or x in own_attr_stores for x in path)):
+                return False
+            if stores.get(e.id, 0) == 1 and after is not None and e.id not in params:
+                # the root is a local bound by one statement (`with self.SendWorkThread(...) as send_thread:`,
+                # `pool = Pool(...)`) that does not lie in the region where the alias is read
+                return not any(isinstance(n, ast.Name) and n.id == e.id and isinstance(n.ctx, (ast.Store, ast.Del))
+                               for s_ in after for n in ast.walk(s_))
+            if stores.get(e.id, 0) != 0:
                 return False
             # the root is a parameter that is never re-bound, or a class of the package / an imported module named by a global
             # (`FunRunner.WORK_QUEUE.put`, `heapq.heappush`): a name the function itself never binds
@@ -784,7 +857,7 @@ class _AliasFields(ast.NodeTransformer):
             while i < len(stmts):
                 st = stmts[i]
                 if isinstance(st, ast.Assign) and len(st.targets) == 1 and isinstance(st.targets[0], ast.Name) \
-                        and ok_name(st.targets[0].id) and stable(st.value):
+                        and ok_name(st.targets[0].id) and stable(st.value, stmts[i + 1:]):
                     nm = st.targets[0].id
                     # every read of the alias lies in the statements that follow the definition in this block
                     n_after = sum(1 for s_ in stmts[i + 1:] for n in ast.walk(s_) if isinstance(n, ast.Name) and n.id == nm)
@@ -1111,12 +1184,282 @@ class _SpecialiseDefaults(ast.NodeTransformer):
     visit_AsyncFunctionDef = visit_FunctionDef
 
 
+class _IterSentinel(ast.NodeTransformer):
+    def visit_FunctionDef(self, node):
+        # N38: at the top level of a function   if c: A...; return      REST      ->      if c: A...  else: REST
+        # (a bare `return` closing an arm that does real work: the two-armed form of the same dispatch; plain guard clauses -
+        # `if c: return`, `if c: raise ...`, `if c: return value` - stay as they are)
+        self.generic_visit(node)
+        for k, st in enumerate(node.body):
+            if isinstance(st, ast.If) and not st.orelse and len(st.body) >= 2 and isinstance(st.body[-1], ast.Return) \
+                    and st.body[-1].value is None and k + 1 < len(node.body) \
+                    and not any(isinstance(x, (ast.FunctionDef, ast.AsyncFunctionDef, ast.ClassDef)) for x in node.body[k + 1:]):
+                st.body = st.body[:-1]
+                st.orelse = node.body[k + 1:]
+                node.body = node.body[:k + 1]
+                break
+        return node
+
+    visit_AsyncFunctionDef = visit_FunctionDef
+
+    @staticmethod
+    def _filtered_source(node: ast.For):
+        # N34: for T in (v for v in IT if C): BODY      ->      for T in IT: if C[T/v]: BODY        (also the list form [v for ...])
+        it = node.iter
+        if isinstance(it, (ast.GeneratorExp, ast.ListComp)) and len(it.generators) == 1 and not it.generators[0].is_async \
+                and isinstance(it.elt, ast.Name) and isinstance(it.generators[0].target, ast.Name) \
+                and it.elt.id == it.generators[0].target.id and isinstance(node.target, ast.Name) and it.generators[0].ifs:
+            g = it.generators[0]
+            v, t = g.target.id, node.target.id
+            if any(isinstance(n, ast.Name) and n.id == t for c in g.ifs for n in ast.walk(c)):
+                return None
+            if any(isinstance(n, (ast.Break, ast.Continue)) for st in node.body for n in ast.walk(st)) and False:
+                return None
+
+            class _R(ast.NodeTransformer):
+                def visit_Name(self_, n):
+                    return ast.copy_location(ast.Name(id=t, ctx=n.ctx), n) if n.id == v else n
+            tests = [_R().visit(c) for c in g.ifs]
+            test = tests[0] if len(tests) == 1 else ast.copy_location(ast.BoolOp(op=ast.And(), values=tests), tests[0])
+            guard = ast.copy_location(ast.If(test=test, body=node.body, orelse=[]), node)
+            return ast.copy_location(ast.For(target=node.target, iter=g.iter, body=[guard], orelse=node.orelse), node)
+        return None
+
+    def visit_Assign(self, node: ast.Assign):
+        # N32: a = b = E  (names and plain attribute paths)   ->   b = E; a = b       (E evaluated once, as in the chained form;
+        # a constant or a name on the right is simply repeated)
+        self.generic_visit(node)
+        if len(node.targets) < 2 or not all(isinstance(t, ast.Name) or (isinstance(t, ast.Attribute) and _pure_path(t)) for t in node.targets):
+            return node
+        if isinstance(node.value, (ast.Constant, ast.Name)):
+            return [ast.copy_location(ast.Assign(targets=[t], value=_clone(node.value)), node) for t in node.targets]
+        names = [t for t in node.targets if isinstance(t, ast.Name)]
+        if not names:
+            return node
+        first = names[0]
+        out = [ast.copy_location(ast.Assign(targets=[first], value=node.value), node)]
+        for t in node.targets:
+            if t is not first:
+                out.append(ast.copy_location(ast.Assign(targets=[t], value=ast.copy_location(ast.Name(id=first.id, ctx=ast.Load()), node)), node))
+        return out
+
+    def visit_For(self, node: ast.For):
+        # N31: for T in iter(F, None): BODY  [else: E]     ->     while True: t = F(); if t is None: E; break;  T = t; BODY
+        # (the two-argument iter() with the None sentinel: the receive loop of a queue.  iter() compares with ==, the rewrite uses
+        # `is None`, the form the receive loops of the package are written in - items of the queues are tuples and integers,
+        # which equal None only when they are None.  A plain name target is bound by the call directly.  Other sentinels
+        # (`iter(f.readline, b"")`) stay as they are: that form is itself the idiom the file rules read.)
+        flt = self._filtered_source(node)
+        if flt is not None:
+            return self.generic_visit(ast.fix_missing_locations(flt))
+        it = node.iter
+        if isinstance(it, ast.Call) and isinstance(it.func, ast.Name) and it.func.id == "iter" and len(it.args) == 2 and not it.keywords \
+                and _pure_path(it.args[0]) and isinstance(it.args[1], ast.Constant) and it.args[1].value is None \
+                and not isinstance(node, ast.AsyncFor):
+            sent = it.args[1]
+            is_none = isinstance(sent, ast.Constant) and sent.value is None
+            direct = isinstance(node.target, ast.Name)
+            tname = node.target.id if direct else f"_item{node.lineno}"
+
+            def nm(ctx):
+                return ast.copy_location(ast.Name(id=tname, ctx=ctx), node)
+            call = ast.copy_location(ast.Call(func=it.args[0], args=[], keywords=[]), it)
+            recv = ast.copy_location(ast.Assign(targets=[nm(ast.Store())], value=call), node)
+            test = ast.copy_location(ast.Compare(left=nm(ast.Load()), ops=[ast.Is() if is_none else ast.Eq()], comparators=[sent]), it)
+            brk = ast.copy_location(ast.If(test=test, body=list(node.orelse) + [ast.copy_location(ast.Break(), node)], orelse=[]), node)
+            body = [recv, brk]
+            if not direct:
+                body.append(ast.copy_location(ast.Assign(targets=[node.target], value=nm(ast.Load())), node))
+            loop = ast.copy_location(ast.While(test=ast.copy_location(ast.Constant(value=True), node), body=body + list(node.body), orelse=[]), node)
+            return self.generic_visit(ast.fix_missing_locations(loop))
+        return self.generic_visit(node)
+
+
+class _CountingLoops(ast.NodeTransformer):
+    """N36:  i = A; while i < B: BODY; i += 1      ->      for i in range(A, B): BODY
+    B is a name / constant that the loop does not re-bind (so it is the bound the for loop evaluates once), BODY has no `continue`
+    of this loop and does not assign i, and i is not used outside the initialisation and the loop (after the loop it would be B,
+    not B - 1).  `while B > i` is read the same way."""
+
+    def visit_FunctionDef(self, node):
+        self.generic_visit(node)
+        self._fn = node
+        self._blocks(node)
+        return node
+
+    visit_AsyncFunctionDef = visit_FunctionDef
+
+    def _blocks(self, node):
+        for fld in ("body", "orelse", "finalbody"):
+            blk = getattr(node, fld, None)
+            if isinstance(blk, list) and blk and isinstance(blk[0], ast.stmt):
+                self._one(blk)
+                for st in blk:
+                    if not isinstance(st, (ast.FunctionDef, ast.AsyncFunctionDef, ast.ClassDef)):
+                        self._blocks(st)
+        for h in getattr(node, "handlers", []) or []:
+            self._blocks(h)
+
+    @staticmethod
+    def _own_continue(stmts) -> bool:
+        def go(n) -> bool:
+            if isinstance(n, ast.Continue):
+                return True
+            if isinstance(n, (ast.For, ast.While, ast.AsyncFor, ast.FunctionDef, ast.AsyncFunctionDef, ast.ClassDef, ast.Lambda)):
+                # a nested loop owns its continues (its else arm does not, but that is rare enough to give up on)
+                return any(go(x) for x in getattr(n, "orelse", []) or []) if isinstance(n, (ast.For, ast.While, ast.AsyncFor)) else False
+            return any(go(c) for c in ast.iter_child_nodes(n))
+        return any(go(s) for s in stmts)
+
+    def _one(self, blk):
+        k = 0
+        while k < len(blk):
+            lp = blk[k]
+            k += 1
+            if not (isinstance(lp, ast.While) and not lp.orelse and isinstance(lp.test, ast.Compare) and len(lp.test.ops) == 1 and len(lp.body) >= 2):
+                continue
+            l, op, r = lp.test.left, lp.test.ops[0], lp.test.comparators[0]
+            if isinstance(op, ast.Gt):
+                l, r, op = r, l, ast.Lt()
+            if not (isinstance(op, ast.Lt) and isinstance(l, ast.Name)):
+                continue
+            i = l.id
+            if not (isinstance(r, ast.Name) or (isinstance(r, ast.Constant) and isinstance(r.value, int))):
+                continue
+            last = lp.body[-1]
+            if not (isinstance(last, ast.AugAssign) and isinstance(last.op, ast.Add) and isinstance(last.target, ast.Name) and last.target.id == i
+                    and isinstance(last.value, ast.Constant) and last.value.value == 1 and not isinstance(last.value.value, bool)):
+                continue
+            body = lp.body[:-1]
+            stored_in_body = {n.id for s_ in body for n in ast.walk(s_) if isinstance(n, ast.Name) and isinstance(n.ctx, (ast.Store, ast.Del))}
+            if i in stored_in_body or (isinstance(r, ast.Name) and (r.id in stored_in_body or r.id == i)) or self._own_continue(body):
+                continue
+            # the initialisation: the closest preceding statement of the block, reached over plain assignments that do not mention i
+            j = k - 2
+            init = None
+            while j >= 0:
+                st = blk[j]
+                if isinstance(st, ast.Assign) and len(st.targets) == 1 and isinstance(st.targets[0], ast.Name) and st.targets[0].id == i:
+                    init = st
+                    break
+                if not isinstance(st, ast.Assign) or any(isinstance(n, ast.Name) and n.id == i for n in ast.walk(st)) \
+                        or (isinstance(r, ast.Name) and False):
+                    break
+                j -= 1
+            if init is None or any(isinstance(n, ast.Name) and n.id == i for n in ast.walk(init.value)):
+                continue
+            if not (isinstance(init.value, ast.Name) or (isinstance(init.value, ast.Constant) and isinstance(init.value.value, int))):
+                continue
+            # the bound must not be re-bound between the initialisation and the loop in a way that reads i (it cannot: no mention
+            # of i there); i is used nowhere else in the function
+            inside = sum(1 for n in ast.walk(lp) if isinstance(n, ast.Name) and n.id == i) + \
+                sum(1 for n in ast.walk(init) if isinstance(n, ast.Name) and n.id == i)
+            total = sum(1 for n in ast.walk(self._fn) if isinstance(n, ast.Name) and n.id == i)
+            if inside != total or any(isinstance(n, (ast.Global, ast.Nonlocal)) and i in n.names for n in ast.walk(self._fn)):
+                continue
+            args = [r] if (isinstance(init.value, ast.Constant) and init.value.value == 0) else [init.value, r]
+            rng = ast.Call(func=ast.Name(id="range", ctx=ast.Load()), args=args, keywords=[])
+            new = ast.For(target=ast.Name(id=i, ctx=ast.Store()), iter=rng, body=body, orelse=[])
+            blk[k - 1] = ast.fix_missing_locations(ast.copy_location(new, lp))
+            del blk[j]
+            k -= 1
+
+
+class _ManualIteration(_CountingLoops):
+    """N39: the iterator protocol written by hand
+             S = object(); it = iter(X)
+             while True:  p = next(it, S);  if p is S: break;  BODY            ->      for p in X: BODY
+             while True:  try: p = next(it)  except StopIteration: break;  BODY  ->      for p in X: BODY
+    `it` is bound once, directly in front of the loop (at most the sentinel's binding in between), and used only by that next();
+    the sentinel is a fresh object() used only there; p is not used outside the loop."""
+
+    def _count(self, name):
+        return sum(1 for n in ast.walk(self._fn) if isinstance(n, ast.Name) and n.id == name)
+
+    def _one(self, blk):
+        k = 0
+        while k < len(blk):
+            lp = blk[k]
+            k += 1
+            if not (isinstance(lp, ast.While) and isinstance(lp.test, ast.Constant) and lp.test.value is True and not lp.orelse and lp.body):
+                continue
+            first = lp.body[0]
+            it_name = p_name = sent = None
+            rest = None
+            if isinstance(first, ast.Assign) and len(first.targets) == 1 and isinstance(first.targets[0], ast.Name) \
+                    and isinstance(first.value, ast.Call) and isinstance(first.value.func, ast.Name) and first.value.func.id == "next" \
+                    and len(first.value.args) == 2 and not first.value.keywords and all(isinstance(a, ast.Name) for a in first.value.args) \
+                    and len(lp.body) >= 2:
+                g = lp.body[1]
+                p_name, it_name, sent = first.targets[0].id, first.value.args[0].id, first.value.args[1].id
+                if not (isinstance(g, ast.If) and not g.orelse and len(g.body) == 1 and isinstance(g.body[0], ast.Break)
+                        and isinstance(g.test, ast.Compare) and len(g.test.ops) == 1 and isinstance(g.test.ops[0], ast.Is)
+                        and {src_(g.test.left), src_(g.test.comparators[0])} == {p_name, sent}):
+                    continue
+                rest = lp.body[2:]
+            elif isinstance(first, ast.Try) and len(first.body) == 1 and not first.orelse and not first.finalbody and len(first.handlers) == 1 \
+                    and isinstance(first.handlers[0].type, ast.Name) and first.handlers[0].type.id == "StopIteration" \
+                    and len(first.handlers[0].body) == 1 and isinstance(first.handlers[0].body[0], ast.Break):
+                a = first.body[0]
+                if not (isinstance(a, ast.Assign) and len(a.targets) == 1 and isinstance(a.targets[0], ast.Name)
+                        and isinstance(a.value, ast.Call) and isinstance(a.value.func, ast.Name) and a.value.func.id == "next"
+                        and len(a.value.args) == 1 and isinstance(a.value.args[0], ast.Name) and not a.value.keywords):
+                    continue
+                p_name, it_name = a.targets[0].id, a.value.args[0].id
+                rest = lp.body[1:]
+            else:
+                continue
+            if not rest:
+                continue
+            # the iterator's binding: directly in front of the loop, at most the sentinel's binding in between
+            j = k - 2
+            drop = []
+            if sent is not None and j >= 0 and self._is_sentinel(blk[j], sent):
+                drop.append(j)
+                j -= 1
+            bind = blk[j] if j >= 0 else None
+            if not (isinstance(bind, ast.Assign) and len(bind.targets) == 1 and isinstance(bind.targets[0], ast.Name)
+                    and bind.targets[0].id == it_name and isinstance(bind.value, ast.Call) and isinstance(bind.value.func, ast.Name)
+                    and bind.value.func.id == "iter" and len(bind.value.args) == 1 and not bind.value.keywords):
+                continue
+            drop.append(j)
+            if sent is not None and len(drop) == 1:
+                # the sentinel was bound earlier in this block
+                cand = [m for m in range(j) if self._is_sentinel(blk[m], sent)]
+                if len(cand) != 1:
+                    continue
+                drop.append(cand[0])
+            if self._count(it_name) != 2 or (sent is not None and self._count(sent) != 3):
+                continue
+            inside = sum(1 for n in ast.walk(lp) if isinstance(n, ast.Name) and n.id == p_name)
+            if inside != self._count(p_name):
+                continue
+            new = ast.For(target=ast.Name(id=p_name, ctx=ast.Store()), iter=bind.value.args[0], body=rest, orelse=[])
+            blk[k - 1] = ast.fix_missing_locations(ast.copy_location(new, lp))
+            for m in sorted(drop, reverse=True):
+                del blk[m]
+                k -= 1
+
+    @staticmethod
+    def _is_sentinel(st, name) -> bool:
+        return isinstance(st, ast.Assign) and len(st.targets) == 1 and isinstance(st.targets[0], ast.Name) and st.targets[0].id == name \
+            and isinstance(st.value, ast.Call) and isinstance(st.value.func, ast.Name) and st.value.func.id == "object" \
+            and not st.value.args and not st.value.keywords
+
+
+def src_(e) -> str:
+    return ast.unparse(e)
+
+
 def normalise(tree: ast.Module) -> ast.Module:
     roots = _inert_roots(tree)
     if roots:
         tree = _DropInert(roots).visit(tree)
     if NEVER_PASSED or FLAG_FIELDS:
         tree = _SpecialiseDefaults().visit(tree)
+    tree = _IterSentinel().visit(tree)
+    tree = _ManualIteration().visit(tree)
+    tree = _CountingLoops().visit(tree)
     tree = _AliasFields().visit(tree)
     tree = _N().visit(tree)
     ast.fix_missing_locations(tree)
